@@ -104,7 +104,24 @@ def _run(ck, m):
     cells = 0
 
     def effects_in(region):
-        calls = [callee(wb.term(x)).split('::')[-1] for x in sorted(region) if wb.term(x)['k'] == 'call' and not is_log(wb.term(x))]
+        # names of everything called in the region, looking into the private helpers of the writer (an arm's body may have been
+        # extracted into a helper function)
+        calls = []
+        decls = []
+
+        def visit(body, blocks, depth):
+            for x in sorted(blocks):
+                tx = body.term(x)
+                if tx['k'] != 'call' or is_log(tx):
+                    continue
+                calls.append(callee(tx).split('::')[-1])
+                decls.append(callee_decl(tx))
+                cb_ = P.bodies.get(callee(tx))
+                if cb_ is not None and depth < 3 and not tx['f'].get('ind') and cb_.id.startswith('nundb::storage::') \
+                        and cb_.id != body.id:
+                    visit(cb_, cb_.reachable(), depth + 1)
+        visit(wb, region, 0)
+        effects_in.decls = decls
         return calls
     for state, tb in sorted(tm.items()):
         modes = {'reclaim': regions[(state, 'reclaim')] | regions[(state, 'both')],
@@ -113,10 +130,11 @@ def _run(ck, m):
             cells += 1
             calls = effects_in(region)
             marks_ok = any(c in ('set_value_as_ok', 'write_new_key_value') for c in calls)
-            removes = any(wb.term(x)['k'] == 'call' and callee_decl(wb.term(x)) == 'std::collections::HashMap::remove' for x in region)
+            removes = 'std::collections::HashMap::remove' in effects_in.decls
             in_place = 'update_key' in calls
-            panics = any(c in ('panic_fmt', 'begin_panic', 'panic') for c in calls) or any(
-                wb.term(x)['k'] == 'call' and callee_decl(wb.term(x)).startswith('std::panicking') for x in region)
+            panics = any(wb.term(x)['k'] == 'call' and (callee_decl(wb.term(x)).startswith('std::panicking') or
+                                                           callee(wb.term(x)).split('::')[-1] in ('panic_fmt', 'begin_panic', 'panic'))
+                         for x in region)
             ok = marks_ok or removes or panics
             why = 'marks Ok with the offsets just written' if marks_ok else ('removes the entry from memory' if removes else
                                                                               ('unreachable by the selection (panics)' if panics else ''))
